@@ -27,10 +27,14 @@ import (
 const fsmPrefix = "github.com/robbyt/go-fsm/"
 
 func classifyCluster(g gstack.G) string {
+	// by the function whose `go` statement started the goroutine (the name of the goroutine's own
+	// entry function - a closure or, after a refactoring, a method - does not matter)
 	switch {
-	case g.Has("httpcluster.(*Runner).createAndStartServer.func1"):
+	case strings.HasSuffix(g.CreatedBy, "httpcluster.(*Runner).createAndStartServer"),
+		g.Has("httpcluster.(*Runner).createAndStartServer.func1"):
 		return "servers"
-	case g.Has("httpcluster.(*Runner).stopServers.func1"):
+	case strings.HasSuffix(g.CreatedBy, "httpcluster.(*Runner).stopServers"),
+		g.Has("httpcluster.(*Runner).stopServers.func1"):
 		return "helpers"
 	case g.Has("httpcluster.(*Runner).Run"):
 		return "main"
